@@ -2,9 +2,11 @@ package main
 
 import (
 	"bytes"
+	"fmt"
 	"os"
 	"os/exec"
 	"regexp"
+	"strconv"
 	"strings"
 	"time"
 )
@@ -80,6 +82,13 @@ func genC06(tier string, seed uint64, emit func(string)) {
 		emit(segsCase("hostile", [][]byte{bytes.Repeat([]byte("*1\r\n"), d)}))
 		emit(segsCase("hostile", [][]byte{append(bytes.Repeat([]byte("*1\r\n"), d), []byte(":1\r\n")...)}))
 	}
+	// nesting up to the 1 MiB bound of the property (4 bytes per level), with and without an innermost value
+	for _, d := range []int{65536, 131072, 262143} {
+		emit(fmt.Sprintf("deep %d -", d))
+	}
+	if tier == "thorough" {
+		emit(fmt.Sprintf("deep %d %s", 65536, hx([]byte(":1\r\n"))))
+	}
 	n := 12000
 	if tier == "thorough" {
 		n = 600000
@@ -115,6 +124,20 @@ func genC06(tier string, seed uint64, emit func(string)) {
 var bigDecl = regexp.MustCompile(`[$*]\+?[0-9]{8,}`)
 
 func runC06(toks []string) Result {
+	if toks[0] == "deep" {
+		// nesting near the 1 MiB bound: a stack overflow is a fatal error no recover() catches, so always in a child
+		if os.Getenv("VH_CHILD") == "" {
+			return runIsolated("C06", toks)
+		}
+		d, _ := strconv.Atoi(toks[1])
+		stream := append(bytes.Repeat([]byte("*1\r\n"), d), unhx(toks[2])...)
+		obs, _, end := streamOutcome([][]byte{stream}, 1<<21)
+		oracle := "ok"
+		if end == "panic" {
+			oracle = "fail:parser panicked"
+		}
+		return Result{Obs: obs, Oracle: oracle, Tags: []string{"end-" + end, "deep", "nt"}}
+	}
 	segs := hexSegs(toks[1:])
 	var all []byte
 	for _, s := range segs {
